@@ -70,6 +70,7 @@ def programs(draw, target="hexital", max_n=40):
         elif op == "calculate_index_range":
             entry["index"] = draw(st.integers(0, 60))
             entry["span"] = draw(st.integers(2, 6))
+            entry["negative"] = draw(st.booleans())  # the same range addressed by negative indices
         ops.append(entry)
     return {"target": target, "pool": pool, "initial": initial, "tf": tf, "preload": rows[:pre], "ops": ops}
 
@@ -342,7 +343,11 @@ def run_case(case) -> Result:
                 a = first + op["index"] % (n - first - 1)
                 b = min(n, a + op["span"])
                 full_before = d.snapshot()
-                ind.calculate_index(a, b)
+                if op.get("negative") and b < n:  # (an end of 0 would mean "no end given")
+                    labels.append("negative_range")
+                    ind.calculate_index(a - n, b - n)
+                else:
+                    ind.calculate_index(a, b)
                 fired += 1
                 special = True
                 if not same(before, ind.as_list()):
